@@ -173,6 +173,28 @@ theorem build_strTest_inv (name : String) (hn : name ∈ strTests) (pfx : String
   rw [hpr, e2, f2]
   rfl
 
+/-- `name(S, T)` for a string test with two arbitrary arguments: both are built with empty flags (the
+second one from the state the first one leaves), the plan is the function over both arguments, the
+props are those of the *last* argument -/
+theorem build_strTest2_inv (name : String) (hn : name ∈ strTests) (pfx : String) (a b : Ast)
+    (fl : Flags) (st : BState) (o : BOut)
+    (h : build regexOk limit snt sdf (.call name pfx (.acons a (.acons b .anil))) fl st = .ok o) :
+    ∃ st1 ho ho2, build regexOk limit snt sdf a {} st1 = .ok ho ∧
+      build regexOk limit snt sdf b {} ho.st = .ok ho2 ∧
+      o.q = .func name .nil (.pcons ho.q (.pcons ho2.q .pnil)) ∧ o.props = ho2.props := by
+  have hU : fnUsed name 2 = 2 := by
+    simp only [strTests, List.mem_cons, List.not_mem_nil, or_false] at hn
+    rcases hn with rfl | rfl | rfl <;> rfl
+  have hne : ∀ s, s ∉ strTests → name ≠ s := fun s hs e => hs (e ▸ hn)
+  obtain ⟨ao, hao, hq, hpr⟩ := build_call_inv2 regexOk limit snt sdf name pfx _ fl st o h
+    (hne _ (by decide)) (hne _ (by decide)) (hne _ (by decide)) (hne _ (by decide))
+    (hne _ (by decide)) (hne _ (by decide)) (hne _ (by decide))
+  simp only [Ast.argList, List.length_cons, List.length_nil, Nat.zero_add, hU] at hao hpr
+  obtain ⟨ho, ho2, hho, hho2, e1, e2⟩ := build_args2 regexOk limit snt sdf a b 0 _ ao hao
+  refine ⟨_, ho, ho2, hho, hho2, by rw [hq, e1], ?_⟩
+  rw [hpr, e2]
+  rfl
+
 /-- `(P)`: the inner path is built with empty flags; plan and props -/
 theorem build_group_inv (x : Ast) (fl : Flags) (st : BState) (o : BOut)
     (h : build regexOk limit snt sdf (.group x) fl st = .ok o) :
